@@ -203,6 +203,9 @@ pub struct Scn {
     exit_gates: bool,
     /// whether the cached read-only instance has served requests (warm cache) before the schedule starts
     prime: bool,
+    /// flush the writer's cache before the schedule (as after a restart / expiry): requests on its clones
+    /// have to fetch nodes from the database while publishes commit
+    cold_writer_cache: bool,
 }
 
 impl Scn {
@@ -222,6 +225,23 @@ impl Scn {
         s.explicit_flush = false;
         s.exit_gates = true;
         s.prime = false;
+        s
+    }
+    /// requests on a clone of a CACHED publisher whose cache is cold, responses in flight across commits
+    fn fill_race(rng: &mut Rng) -> Self {
+        let mut s = Scn::random(rng, Some((Inst::WriterClone, 0)));
+        let ls = labels3();
+        let mut ops = vec![if rng.chance(1, 2) { ROp::Lookup(rng.pick(&ls).clone()) } else { ROp::History(rng.pick(&ls).clone(), HistoryParams::Complete) }];
+        ops.push(ROp::EpochHash);
+        ops.push(ROp::Lookup(rng.pick(&ls).clone()));
+        s.readers = vec![(Inst::WriterClone, ops)];
+        s.writer_cache = CacheOpt::Default;
+        s.poller = false;
+        s.explicit_flush = false;
+        s.exit_gates = true;
+        s.cold_writer_cache = true;
+        let mut c = 100u64;
+        s.writes = (0..rng.range(1, 2)).map(|i| mk_batch(rng, &format!("f{i}"), &mut c)).collect();
         s
     }
     fn random(rng: &mut Rng, single_op: Option<(Inst, usize)>) -> Self {
@@ -270,13 +290,18 @@ impl Scn {
             explicit_flush: has_ro_cached && rng.chance(1, 6),
             exit_gates: rng.chance(1, 3),
             prime: rng.chance(3, 4),
+            cold_writer_cache: rng.chance(1, 4),
         }
     }
     fn json(&self) -> Value {
         json!({"cfg": self.cfg.name(), "writer_cache": self.writer_cache.name(), "prefix": history_json(&self.prefix), "writes": history_json(&self.writes),
                "readers": self.readers.iter().map(|(i, ops)| json!({"instance": i.name(), "ops": ops.iter().map(|o| format!("{o:?}")).collect::<Vec<_>>()})).collect::<Vec<_>>(),
-               "poller": self.poller, "explicit_flush": self.explicit_flush, "exit_gates": self.exit_gates, "ro_cache_warm": self.prime})
+               "poller": self.poller, "explicit_flush": self.explicit_flush, "exit_gates": self.exit_gates, "ro_cache_warm": self.prime, "writer_cache_cold": self.cold_writer_cache})
     }
+}
+
+thread_local! {
+    static DIAG: std::cell::RefCell<Value> = const { std::cell::RefCell::new(Value::Null) };
 }
 
 struct ReaderRec {
@@ -335,6 +360,21 @@ pub fn run(ctx: &Ctx) -> i32 {
             l.count("random_schedules", 1);
         }
     });
+    // ---- cold cache of a cached publisher, requests on its clone with responses in flight across commits
+    par_cases(ctx, &mon, "fill", ctx.tier.pick(64, 600), |cc, rng, l| {
+        let scn = Scn::fill_race(rng);
+        for i in 0..ctx.tier.pick(40, 100) {
+            if i % 2 == 0 {
+                let mut r2 = Rng::derive(cc.idx, "c13-fill", i);
+                let mut st = RandomStrategy(&mut r2);
+                with_cfg!(scn.cfg, TC, { run_one::<TC>(&scn, &mut st, l, "random") });
+            } else {
+                let mut st = PctStrategy::new(rng.next_u64(), 4, 80);
+                with_cfg!(scn.cfg, TC, { run_one::<TC>(&scn, &mut st, l, "pct") });
+            }
+            l.count("fill_race_schedules", 1);
+        }
+    });
     // ---- cold cached reader + poller + responses in flight
     let n_cold = ctx.tier.pick(64, 600);
     par_cases(ctx, &mon, "cold", n_cold, |cc, rng, l| {
@@ -389,6 +429,13 @@ fn run_one<TC: Configuration>(scn: &Scn, strategy: &mut dyn Strategy, l: &mut Lo
             if matches!(a, Applied::Epoch(..)) && r.is_err() {
                 return Err("prefix publish failed".into());
             }
+        }
+        if scn.cold_writer_cache {
+            // node and value entries gone (as after expiry); the epoch record never expires and a restarted
+            // directory reads it first thing, so its slot is warm.  (An explicit flush of the publisher's
+            // manager with requests in flight is the unlocked-flush case again, which is exploratory only.)
+            w.mgr.flush_cache().await;
+            let _ = w.mgr.get_committed::<Azks>(&akd::append_only_zks::DEFAULT_AZKS_KEY).await;
         }
         let clock = Arc::new(AtomicU64::new(1));
         // reader instances
@@ -510,6 +557,19 @@ fn run_one<TC: Configuration>(scn: &Scn, strategy: &mut dyn Strategy, l: &mut Lo
             };
             verdicts.push((rec.inst, rec.op, overlaps, v));
         }
+        // diagnostics for replay files: what storage and the writer's manager hold for the root now
+        let root_key = NodeKey(NodeLabel::root());
+        let describe = |r: Result<DbRecord, StorageError>| match r {
+            Ok(DbRecord::TreeNode(t)) => format!("latest(e{}, {}) previous({:?})", t.latest_node.last_epoch, hx(&t.latest_node.hash.0), t.previous_node.as_ref().map(|p| (p.last_epoch, hx(&p.hash.0)))),
+            other => format!("{:?}", other.map(|_| "other record")),
+        };
+        let diag = serde_json::json!({
+            "published": published.iter().map(|h| hx(h)).collect::<Vec<_>>(),
+            "root_in_database": describe(db.inner.get::<TreeNodeWithPreviousValue>(&root_key).await),
+            "root_through_writer_manager": describe(w.mgr.get::<TreeNodeWithPreviousValue>(&root_key).await),
+            "epoch_record_through_writer_manager": format!("{:?}", w.mgr.get_committed::<Azks>(&akd::append_only_zks::DEFAULT_AZKS_KEY).await.ok()),
+        });
+        DIAG.with(|d| *d.borrow_mut() = diag);
         Ok((out, verdicts, sigs.len(), published.len() as u64 - 1))
     });
     l.eval(1);
@@ -546,7 +606,7 @@ fn run_one<TC: Configuration>(scn: &Scn, strategy: &mut dyn Strategy, l: &mut Lo
                         l.violation(
                             format!("C13:{obs}/{}/{}/concurrent{}", op.kind(), inst.name(), if scn.explicit_flush { "+explicit-flush" } else { "" }),
                             format!("{} on {} concurrent with a publish: {msg}", op.kind(), inst.name()),
-                            json!({"scenario": scn.json(), "strategy": kind, "op": format!("{op:?}"), "instance": inst.name(), "schedule": out.schedule(),
+                            json!({"scenario": scn.json(), "strategy": kind, "op": format!("{op:?}"), "instance": inst.name(), "schedule": out.schedule(), "state_afterwards": DIAG.with(|d| d.borrow().clone()),
                                    "trace": out.trace.iter().map(|(t, d)| format!("{t}:{d}")).collect::<Vec<_>>()}),
                         );
                     }
